@@ -250,12 +250,31 @@ func c07(r *Run) {
 			}
 			src, t, marker, isErr = ua, old.t, old.marker, old.isErr
 			desc = "replay"
+		case 8:
+			t = "" // right address, empty transaction id
+			desc = "empty-t"
+		case 9:
+			t = "" // right address, no `t` key at all
+			desc = "absent-t"
+		}
+		if kind >= 2 && kind != 7 && r.Rng.Intn(3) == 0 {
+			// the foreign datagram is an error message rather than a response
+			isErr = true
+			marker = fmt.Sprintf("err-marker-%d", mseq)
+			desc += "-error"
+		}
+		if kind >= 8 && c.t == "" {
+			return
 		}
 		var b []byte
 		if isErr {
 			b = ErrMsg(t, 201, marker)
 		} else {
 			b = Resp(t, benc.Dict{{K: "id", V: marker}})
+		}
+		if kind == 9 {
+			d, _ := benc.DecodeDict(b)
+			b = benc.Encode(d.Del("t"))
 		}
 		dg := c07dg{marker: marker, src: src.String(), t: t, at: time.Now(), isErr: isErr}
 		r.Logf("send %s for call %d src=%s t=%s", desc, c.idx, src, r.TShow(c.dest.String(), t))
@@ -303,7 +322,7 @@ func c07(r *Run) {
 	ndg := ch.Range(0, 60, "dgs")
 	for i := 0; i < ndg; i++ {
 		at := time.Duration(r.Rng.Int63n(int64(span + 4*delay)))
-		kind := ch.Pick([]int{5, 2, 3, 3, 3, 2, 2, 2}, "dg.kind")
+		kind := ch.Pick([]int{5, 2, 3, 3, 3, 2, 2, 2, 2, 1}, "dg.kind")
 		r.After(at, "dg", func() {
 			var cands []*c07call
 			for _, c := range calls {
